@@ -173,15 +173,16 @@ class IO:
         self.lagrangian_fields_with_grid_name[lagrangian_grid_name] = []
         for field_name, field in fields_for_io.items():
             # Add each field into local dictionary
-            self.lagrangian_fields[field_name] = field
+            # fields are keyed per grid: the same field name may live on several grids
+            self.lagrangian_fields[lagrangian_grid_name, field_name] = field
             self.lagrangian_fields_with_grid_name[lagrangian_grid_name].append(field_name)
 
             # Assign field types
             # check the vector shape first: (dim, N) also satisfies shape[0] == N when N == dim
             if field.shape == lagrangian_grid.shape:
-                self.lagrangian_fields_type[field_name] = "Vector"
+                self.lagrangian_fields_type[lagrangian_grid_name, field_name] = "Vector"
             elif field.shape[0] == lagrangian_grid.shape[1]:
-                self.lagrangian_fields_type[field_name] = "Scalar"
+                self.lagrangian_fields_type[lagrangian_grid_name, field_name] = "Scalar"
             else:
                 msg = (
                     f"Unable to identify lagrangian field type "
@@ -289,8 +290,8 @@ class IO:
                 lagrangian_vector_grp = lagrangian_grid_grp.create_group("Vector")
                 # Go over and save all fields that lie on the current lagrangian grid
                 for field_name in self.lagrangian_fields_with_grid_name[lagrangian_grid_name]:
-                    field = self.lagrangian_fields[field_name]
-                    field_type = self.lagrangian_fields_type[field_name]
+                    field = self.lagrangian_fields[lagrangian_grid_name, field_name]
+                    field_type = self.lagrangian_fields_type[lagrangian_grid_name, field_name]
                     if field_type == "Scalar":
                         lagrangian_scalar_grp.create_dataset(field_name, data=field)
                     elif field_type == "Vector":
@@ -392,7 +393,7 @@ class IO:
 
                     # Load all the fields living on the current lagrangian grid
                     for field_name in self.lagrangian_fields_with_grid_name[lagrangian_grid_name]:
-                        field_type = self.lagrangian_fields_type[field_name]
+                        field_type = self.lagrangian_fields_type[lagrangian_grid_name, field_name]
                         if field_type == "Scalar":
                             field_name_in_file = (
                                 f"Lagrangian/{lagrangian_grid_name}/{field_type}/{field_name}"
@@ -403,9 +404,10 @@ class IO:
                                     f"grid {lagrangian_grid_name} in loaded file!"
                                 )
                                 raise ValueError(msg)
-                            self.lagrangian_fields[field_name][...] = f["Lagrangian"][
-                                lagrangian_grid_name
-                            ][field_type][field_name][...]
+                            field = self.lagrangian_fields[lagrangian_grid_name, field_name]
+                            field[...] = f["Lagrangian"][lagrangian_grid_name][field_type][
+                                field_name
+                            ][...]
                         elif field_type == "Vector":
                             field_name_in_file = (
                                 f"Lagrangian/{lagrangian_grid_name}/{field_type}/{field_name}"
@@ -416,7 +418,8 @@ class IO:
                                     f"grid {lagrangian_grid_name} in loaded file!"
                                 )
                                 raise ValueError(msg)
-                            self.lagrangian_fields[field_name][...] = np.moveaxis(
+                            field = self.lagrangian_fields[lagrangian_grid_name, field_name]
+                            field[...] = np.moveaxis(
                                 f["Lagrangian"][lagrangian_grid_name][field_type][field_name][...],
                                 -1,
                                 0,
@@ -556,7 +559,7 @@ class IO:
             )[1:-1]
 
             for field_name in self.lagrangian_fields_with_grid_name[lagrangian_grid_name]:
-                field_type = self.lagrangian_fields_type[field_name]
+                field_type = self.lagrangian_fields_type[lagrangian_grid_name, field_name]
 
                 if field_type == "Scalar":
                     field_grid_size_string = lagrangian_grid_size[0]
